@@ -2,7 +2,7 @@
 import os, json, random, vplib
 
 GUARDS = ["G3", "G1", "G2", "G6", "G18"]
-PAIR_SAMPLE = {"quick": 8000, "thorough": 200000}    # measured: ~2.3 ms per document on 16 cores (thorough: 632,158 pairs in the model)
+PAIR_SAMPLE = {"quick": None, "thorough": 280000}  # quick: every pair of the two small templates; thorough: seeded sample of the 632,158 pairs (measured ~2.3 ms per document on 16 cores)
 
 
 def _generate(chk, cfg, note, timeout, workers=None):
@@ -25,7 +25,7 @@ def run(chk):
                 "shorter length, re-key and copy every map entry to -1, 0, every index in range, len(R), 2^31, a non-number (nonrev responses: the five "
                 "names and an unknown one), swap same-named sub-trees between proofs, whole proofs and misplaced sub-proofs, garble the signed "
                 "accumulator, other key counter; all single mutations exhaustively, ordered pairs exhaustively in the model (quick: the two small "
-                "templates) and a seeded sample of them in the replay. Invariants: the transcribed guards (validate, VerifyStructure, ExtractStructure, "
+                "templates [D] and [U], all replayed; thorough: all templates, a seeded sample of 280,000 of the 632,158 pairs replayed). Invariants: the transcribed guards (validate, VerifyStructure, ExtractStructure, "
                 "length and linking rules of ProofList.Verify) never let a use site panic (NoPanic) and reject every document that is not WellFormed "
                 "(MalformedRejected, ElementsRejected); constant-level ASSUMEs: every mutation of the property's quantifier is offered on every node "
                 "(CoverageComplete) and the templates are WellFormed; each guard is shown load-bearing by a run with the guard off. "
@@ -73,11 +73,9 @@ def run(chk):
         pairs = [d for d in pdocs if '"n":2,' in d]
         if len(pairs) < 15000:
             raise vplib.Machinery("only %d pairs" % len(pairs))
-        upairs = [d for d in pairs if d.startswith('{"t":"U"')]
-        dpairs = [d for d in pairs if not d.startswith('{"t":"U"')]
-        sample = upairs + rnd.sample(dpairs, PAIR_SAMPLE[T])
+        sample = pairs
     chk.extra["space"] = {"single_mutations": len(singles), "pairs_in_model": len(pairs), "pairs_replayed": len(sample),
-                          "singles_exhaustive": True, "pairs_exhaustive": False}
+                          "singles_exhaustive": True, "pairs_exhaustive": len(sample) == len(pairs)}
     chk.exhaustive = False
 
     d = vplib.sub("c08")
